@@ -23,7 +23,7 @@ LEVEL_TEXT = (
     "history's write log is cut at EVERY point; after each, a rerun on a reopened cache must not raise, must equal the uncached run, must treat "
     "the entry as a miss and must never unpickle bytes that were not written and signed by the cache itself."
 )
-LEVEL_NOTE = "crash semantics are those of the backend operation log (each diskcache set is atomic); SQLite page tearing is outside"
+LEVEL_NOTE = 'crash semantics are those of the backend operation log (each diskcache set is atomic); SQLite page tearing is outside; also: relatives derived after a cached run, equal-but-different arguments (1 / True / 1.0 ...), cached interrupt call histories, routes differing only in fallback, partials, signals in the identity'
 RULE = "evaluations = runs executed under a cache; distinct_nontrivial = distinct (program, cacheable subset, backend, history / fault point) whose cache was actually hit or whose fault was actually reached"
 ASSUMPTIONS = ["node functions are plain (sync) functions under both runners, so that one definition is shared across runners", "function nodes are deterministic provenance terms, so any cross-served entry changes a value or a name", "model key = (function identity, arguments by ORIGINAL parameter name, output names, gate targets)"]
 
